@@ -299,7 +299,7 @@ def analyse(spec, W=None, threshold=None, timeout=10, delay=None, shim=None, wan
         os.environ.pop("RRZE_HPC_OSACA_VERIF_DELAY", None)
     res["timed_out"] = bool(dg.timed_out)
     res["lcd"] = canon_lcd(dg.loopcarried_deps)
-    res["events"] = ev.log
+    res["events"] = list(ev.log)      # snapshot: the inspection below calls is_alive() again
     res["workers"] = [{"pid": p.pid, "exitcode": p.exitcode, "alive": p.is_alive()} for p in procs]
     res["parallel"] = bool(procs)
     dg2 = SpyDG._dgs[1]
